@@ -207,6 +207,25 @@ def route(ctx: Any) -> List[Ob]:
     cm = prog.func('zeroconf._listener.AsyncListener.connection_made')
     st = [s_ for t, s_ in attr_stores(cm.node) if self_attr(t, cm.params[0]) == 'transport']
     obs.append(ob(R, cm, st[0] if st else 'self.transport = ...', 'the protocol remembers the transport it was connected to', len(st) == 1 and cm.params[1] in norm(expand_(cm, st[0].value))))
+    # (z) the "recently multicast" decisions compare the record's age with the time THIS datagram arrived: the message that
+    # is dispatched is decoded in this call from this datagram's bytes and stamped with this arrival time (a reused,
+    # earlier-decoded message would carry the arrival time of the first copy and every record would look recent for ever)
+    pd = prog.func('zeroconf._listener.AsyncListener._process_datagram_at_time')
+    disp = [c for c in walk_local_ordered(pd.node) if isinstance(c, ast.Call) and call_name(c) in ('handle_query_or_defer', 'async_updates_from_response')]
+    if not disp:
+        raise AnalysisError('anchor vanished: dispatch calls of the datagram processor')
+    from .common import local_defs as _ld
+
+    p_now, p_data = pd.params[3], pd.params[4]
+    for c in disp:
+        marg = next((a for a in c.args if isinstance(a, ast.Name) and a.id not in pd.params), None)
+        defs = [v for v in _ld(pd).get(marg.id, [])] if marg is not None else []
+
+        def fresh(v: Any) -> bool:
+            return isinstance(v, ast.Call) and call_name(v) == 'DNSIncoming' and len(v.args) >= 4 and norm(v.args[0]) == p_data and norm(v.args[3]) == p_now
+
+        good = bool(defs) and all(v is not None and fresh(v) for v in defs)
+        obs.append(ob(R, pd, c, 'the message handed on is decoded from this datagram and carries this datagram\'s arrival time', good, '' if good else f'`{marg.id if marg is not None else "?"}` may be something other than DNSIncoming({p_data}, ..., {p_now}): ' + '; '.join(norm(v)[:70] for v in defs if v is not None and not fresh(v))))
     return obs
 
 
